@@ -377,5 +377,8 @@ func (w *World) execBlock(op *Op) bool {
 		w.failf("block-coverage", "%s presented %d distinct keys, the collection has %d", name, len(seen), len(mc.Items))
 	}
 	w.ev["block_visit"]++
+	if len(mc.Items)%2 == 1 {
+		w.ev["block_visit_partial"]++ // sizes up to 1024 use blocks of two items
+	}
 	return true
 }
